@@ -2,9 +2,12 @@
 # tools/seedrun.sh <seeded-name> [property ...]
 # Applies the seeded change to a scratch worktree of /repo (removed afterwards; /repo itself is not touched, so this can
 # run next to other checks), runs the quick checks against that tree (VERIF_REPO) and prints what they report.
+# VERIF_HOME: the copy of /verif whose checks are run (default /verif; tools/seedall.sh uses a snapshot so that edits made
+# meanwhile do not reach the runs).
 N=$1; shift
 P=${@:-${N%%-*}}
-cd /verif
+HOME_V=${VERIF_HOME:-/verif}
+cd $HOME_V
 WT=/tmp/sr-$N-$$
 git -C /repo worktree remove --force $WT 2>/dev/null; rm -rf $WT
 git -C /repo worktree add -q --detach $WT HEAD || exit 2
